@@ -610,13 +610,13 @@ impl BuiltInFunction {
                     unreachable!()
                 };
 
-                let s = if s.starts_with("0x") {
-                    s.get(2..).unwrap_or_default()
-                } else {
-                    s
+                // a `0x` prefix announces hexadecimal digits
+                let parsed = match s.strip_prefix("0x") {
+                    Some(hex_digits) => i32::from_str_radix(hex_digits, 16),
+                    None => s.parse::<i32>(),
                 };
 
-                if let Ok(num) = s.parse::<i32>() {
+                if let Ok(num) = parsed {
                     Ok((
                         Some(Primitive::Optional(Some(Box::new(Primitive::Int(num))))),
                         None,
@@ -630,13 +630,13 @@ impl BuiltInFunction {
                     unreachable!()
                 };
 
-                let s = if s.starts_with("0x") {
-                    s.get(2..).unwrap_or_default()
-                } else {
-                    s
+                // a `0x` prefix announces hexadecimal digits
+                let parsed = match s.strip_prefix("0x") {
+                    Some(hex_digits) => i128::from_str_radix(hex_digits, 16),
+                    None => s.parse::<i128>(),
                 };
 
-                if let Ok(num) = s.parse::<i128>() {
+                if let Ok(num) = parsed {
                     Ok((
                         Some(Primitive::Optional(Some(Box::new(Primitive::BigInt(num))))),
                         None,
